@@ -143,6 +143,66 @@ func C03(c *Ctx) {
 			}
 		}
 	}
+	// constructors called from plain helper functions of the front-end (written in the grammar's initializer and
+	// called from the actions): the position is a parameter of the helper, and every action that calls the helper
+	// passes c.astPos() (or a local defined from it) for that parameter
+	isPosArg := func(in *ast.FuncDecl, a ast.Expr) bool {
+		t := nospace(a)
+		if t == "c.astPos()" {
+			return true
+		}
+		nDef, nPos := 0, 0
+		ast.Inspect(in.Body, func(n ast.Node) bool {
+			if as, ok := n.(*ast.AssignStmt); ok {
+				for i, l := range as.Lhs {
+					if id, ok := l.(*ast.Ident); ok && id.Name == t {
+						nDef++
+						if i < len(as.Rhs) && nospace(as.Rhs[i]) == "c.astPos()" {
+							nPos++
+						}
+					}
+				}
+			}
+			return true
+		})
+		return nDef == 1 && nPos == 1
+	}
+	for _, h := range load.AllFuncDecls(root) {
+		if h.Recv != nil || h.Body == nil || !strings.HasSuffix(g.Fset.Position(h.Pos()).Filename, "/pigeon.go") {
+			continue
+		}
+		for _, ce := range callsIn(h.Body) {
+			cn := callName(ce)
+			if !strings.HasPrefix(cn, "ast.New") || len(ce.Args) == 0 {
+				continue
+			}
+			nCalls++
+			a := nospace(ce.Args[0])
+			k, isParam := paramIndexByName(h, a)
+			if !isParam || assignedBetween(h.Body, a, h.Body.Pos(), h.Body.End()) {
+				bad = append(bad, fmt.Sprintf("%s: %s is positioned by %s in helper %s, which is not a position handed in by the action", g.Where(ce.Pos()), cn, a, h.Name.Name))
+				continue
+			}
+			nSites := 0
+			for _, fd := range load.AllFuncDecls(root) {
+				if load.RecvName(fd) != "current" || !strings.HasPrefix(fd.Name.Name, "on") || fd.Body == nil {
+					continue
+				}
+				for _, site := range callsIn(fd.Body) {
+					if callName(site) != h.Name.Name || k >= len(site.Args) {
+						continue
+					}
+					nSites++
+					if !isPosArg(fd, site.Args[k]) {
+						bad = append(bad, fmt.Sprintf("%s: %s hands %s to %s as the position of the node it builds, not the start of the match", g.Where(site.Pos()), fd.Name.Name, nospace(site.Args[k]), h.Name.Name))
+					}
+				}
+			}
+			if nSites == 0 {
+				bad = append(bad, fmt.Sprintf("%s: helper %s builds a node but no grammar action calls it directly", g.Where(ce.Pos()), h.Name.Name))
+			}
+		}
+	}
 	sort.Strings(bad)
 	r.Check(len(bad) == 0 && nCalls >= 25, "C03-a", "A.pigeon.go:node-constructors-use-astPos", "", "pigeon.go", fmt.Sprintf("%d constructor calls in grammar actions, all positioned by c.astPos()", nCalls), strings.Join(bad, "; "))
 	ap := load.FuncDecl(root, "current", "astPos")
@@ -481,6 +541,28 @@ func c03Operators(c *Ctx, g *load.G) {
 		if fd == nil {
 			fd = load.FuncDecl(root, "current", "on"+sp.rule+"1")
 		}
+		// an action that hands operator and operand to a plain helper of the front-end: the mapping is the helper's
+		if fd != nil && fd.Body != nil {
+			hasCtor := false
+			for _, ce := range callsIn(fd.Body) {
+				if strings.HasPrefix(callName(ce), "ast.New") {
+					hasCtor = true
+				}
+			}
+			if !hasCtor {
+				for _, ce := range callsIn(fd.Body) {
+					if id, ok := ce.Fun.(*ast.Ident); ok {
+						if h := load.FuncDecl(root, "", id.Name); h != nil && h.Body != nil && strings.HasSuffix(g.Fset.Position(h.Pos()).Filename, "/pigeon.go") {
+							for _, hc := range callsIn(h.Body) {
+								if strings.HasPrefix(callName(hc), "ast.New") {
+									fd = h
+								}
+							}
+						}
+					}
+				}
+			}
+		}
 		construct := "A.pigeon.go:" + sp.rule + ":operator-mapping"
 		if fd == nil {
 			r.Unk("C03-d", construct, "", "pigeon.go", "action method of "+sp.rule+" not found")
@@ -716,7 +798,7 @@ func flagMapping(c *Ctx, g *load.G, rule string) {
 		detail := "no store to the IgnoreCase flag of a literal node found"
 		nStores := 0
 		for _, fd := range load.AllFuncDecls(bp) {
-			if fd.Body == nil || fd.Recv == nil {
+			if fd.Body == nil || strings.HasSuffix(g.Fset.Position(fd.Pos()).Filename, "_test.go") {
 				continue
 			}
 			stores := false
@@ -733,8 +815,32 @@ func flagMapping(c *Ctx, g *load.G, rule string) {
 			if !stores {
 				continue
 			}
-			rv := recvName(fd)
-			T := rv + ".tok.lit"
+			T := ""
+			if fd.Recv != nil {
+				T = recvName(fd) + ".tok.lit"
+			} else if fd.Type.Params != nil {
+				// a plain function that is handed the token: every caller passes the parser's current token
+				for k, pf := range fd.Type.Params.List {
+					if nospace(pf.Type) != "Token" || len(pf.Names) != 1 {
+						continue
+					}
+					T = pf.Names[0].Name + ".lit"
+					for _, cf := range load.AllFuncDecls(bp) {
+						if cf.Body == nil || cf.Recv == nil {
+							continue
+						}
+						for _, ce := range callsIn(cf.Body) {
+							if id, ok := ce.Fun.(*ast.Ident); ok && id.Name == fd.Name.Name && k < len(ce.Args) && nospace(ce.Args[k]) != recvName(cf)+".tok" {
+								T = ""
+							}
+						}
+					}
+				}
+			}
+			if T == "" {
+				detail = "by " + fd.Name.Name + ", which does not work on the parser's current token"
+				continue
+			}
 			forms := map[string]bool{`strings.HasSuffix(` + T + `,"i")`: true, "len(" + T + ")>0&&" + T + "[len(" + T + ")-1]=='i'": true, `res1(strings.CutSuffix(` + T + `,"i"))`: true}
 			okAll := true
 			for _, p := range c.pkgNorm("bootstrap").normPaths(fd) {
